@@ -51,7 +51,14 @@ def run_case(case, work):
 
     def read_and_dump():
         o = {}
-        r = femio.FEMData.read_directory('fistr', str(d), read_npy=False, save=False, **kw)
+        if case.get('entry', 'read_directory') == 'read_files':
+            # FEMData.read_files handed the mesh / control files and then the result files in
+            # the order of case['files'] (not sorted by anything)
+            names = sorted(str(p) for p in d.iterdir() if '.res.' not in p.name) \
+                + [str(d / f"mesh.res.0.{f['step']}") for f in case['files']]
+            r = femio.FEMData.read_files('fistr', names, **kw)
+        else:
+            r = femio.FEMData.read_directory('fistr', str(d), read_npy=False, save=False, **kw)
         o['node_ids'] = [int(i) for i in r.nodes.ids]
         o['types'] = [[t, [int(i) for i in ids]] for t, ids in r.elements.dict_type_ids.items()]
         o['time_steps'] = r.settings.get('time_steps')
